@@ -49,6 +49,8 @@ def run(ctx):
   # `decay=beta2` leaves the sketch undiscounted)
   from . import C10
   C10.rank_flow(ctx)
+  # ... and the statistics are accumulated as a sketch factor exactly for the dimensions whose root is a sketch
+  C10.predicate_call_sites(ctx)
 
 
 def thin_svd(ctx):
